@@ -100,7 +100,8 @@ def check_ring(drv, c, cl, sg, fails, base=None):
     if any(not (-90 <= la <= 90) for _, la in openr):
         return F('latitude outside [-90, 90]')
     vecs = [G.to_vec(lo, la) for lo, la in openr]
-    area = G.ring_area(vecs)
+    import geo_checks
+    area = geo_checks.ring_area_precise(openr)
     if not area > 0:
         return F(f'ring is not counter-clockwise (signed area {area:.3e})')
     # simplicity in the gnomonic chart about the centroid (cells are far smaller than a hemisphere except at resolution 0)
